@@ -527,9 +527,8 @@ impl Prop for C19 {
         if !matches!(want.last(), Some(Item::Error(_))) && pos != lines.len() {
             return fw::fail(sig("extra-output"), format!("{}: unexpected extra output {:?}", case.key, &lines[pos..]));
         }
-        if want.iter().all(|w| matches!(w, Item::Line(_))) && !out.status.success() {
-            return fw::fail(sig("exit"), format!("{}: all results are values but the exit status is {:?}; stderr {:?}", case.key, out.status, stderr));
-        }
+        // (no rule about the exit status: the statement fixes none; death by signal and the panic code
+        // were rejected above)
         env.bulk_nontrivial += 0 * units_judged;
         fw::pass(!want.is_empty(), fw::hash_str(&stdout))
     }
